@@ -178,7 +178,7 @@ def overlapping_writers(chk, binp):
     report ready and the last of them publishes): a reader polling the file must never find one and the same file (inode) with two
     different contents - a published file is replaced, never written to - and never a partial text"""
     import threading
-    for before in ("", "r", "k"):          # the listener of the stack has reported ready at start-up
+    for before in ("", "r", "k") * (1 if chk.tier == "quick" else 8):          # the listener of the stack has reported ready at start-up
         stack = e2e.Stack(binp)
         try:
             tag = os.path.join(stack.sd, "keys", "status.tag")
